@@ -47,7 +47,7 @@ void h_K01_cover(void) {
 '''
 
 HARNESS_CALLSITE = r'''
-bigint g_in_cs_value; size_t g_in_cs_sz; int g_in_cs_sign, g_in_cs_impossible, g_in_cs_bool;
+bigint g_in_cs_value; size_t g_in_cs_sz; int g_in_cs_sign, g_in_cs_impossible, g_in_cs_bool, g_in_cs_dsign;
 void h_callsite(void) {
     struct VValue v; v.vtype = VV_INT; v.impossible = nondet_bool(); v.intvalue = nondet_bigint(); v.floatValue = 0.0;
     size_t sz = nondet_size_t(); enum Sign s = (enum Sign)nondet_int();
@@ -55,8 +55,13 @@ void h_callsite(void) {
     __CPROVER_assume(sz <= 8 && (s == Sign_UNKNOWN_SIGN || s == Sign_SIGNED || s == Sign_UNSIGNED));
     bigint old = v.intvalue; g_in_cs_value = old; g_in_cs_sz = sz; g_in_cs_sign = s; g_in_cs_impossible = v.impossible;
     dst_is_bool = nondet_bool(); if (dst_is_bool) __CPROVER_assume(sz == 1 && s == Sign_UNKNOWN_SIGN);
+    /* only plain char (and bool) has an unknown sign; plain char is converted with the platform's default sign */
+    dst_is_char = !dst_is_bool && sz == 1; if (!dst_is_bool) __CPROVER_assume(s != Sign_UNKNOWN_SIGN || dst_is_char);
+    g_default_sign = nondet_char(); __CPROVER_assume(g_default_sign == 's' || g_default_sign == 'S' || g_default_sign == 'u' || g_default_sign == 'U' || g_default_sign == 0);
+    g_in_cs_dsign = g_default_sign;
+    if (s == Sign_UNKNOWN_SIGN && !dst_is_bool) { if (g_default_sign == 's' || g_default_sign == 'S') s = Sign_SIGNED; else if (g_default_sign == 'u' || g_default_sign == 'U') s = Sign_UNSIGNED; else return; }
     g_in_cs_bool = dst_is_bool;
-    truncateValues_block(&v, sz, s);
+    truncateValues_block(&v, sz, (enum Sign)g_in_cs_sign);
     __CPROVER_assert(v.vtype == VV_INT && v.impossible == g_in_cs_impossible, "kind and impossibility of the value are kept");
     if (dst_is_bool && !v.impossible) __CPROVER_assert(v.intvalue == (old != 0), "a value stored in a bool is 0 for 0 and 1 for everything else (C11 6.3.1.2)");
     else if (v.impossible || sz == 0 || sz == 8) __CPROVER_assert(v.intvalue == old, "impossible values and full-width / unknown-size destinations keep the value");
@@ -66,6 +71,7 @@ void h_callsite(void) {
 }
 void h_callsite_cover(void) {
     struct VValue v; v.vtype = VV_INT; v.impossible = 0; v.intvalue = -1; v.floatValue = 0.0;
+    dst_is_bool = 0; dst_is_char = 0; g_default_sign = 's';
     truncateValues_block(&v, 4, Sign_UNSIGNED);
     __CPROVER_assert(!(v.intvalue == 4294967295LL), "COVER: -1 stored in a 4-byte unsigned destination becomes 4294967295");
 }
@@ -132,14 +138,23 @@ def build(ctx):
         (r'\bvalue\.valueType\s*=\s*ValueFlow::Value::ValueType::INT\s*;', 'v->vtype = VV_INT;', 1, 2),
         (r'\bvalue\.(intvalue|floatValue)\b', r'v->\1', 3),
         (r'\bValueFlow::truncateIntValue\(', 'truncateIntValue(', 1, 1),
-        (r'\bdst->sign\b', 'dst_sign', 1, 1),
+        (r'\bdst->sign\b', 'dst_sign', 0, 1),
+        (r'\bgetConversionSign\(\*dst, settings\)', 'getConversionSign(dst_is_char ? VType_CHAR : VType_INT, dst_sign, g_default_sign)', 0, 1),
         (r'\bdst->type == VType_BOOL && dst->pointer == 0\b', 'dst_is_bool', 0, 1),
         (r'\bcontinue\s*;', 'return;', 1, 2),
     ], ID + ".truncateValues"); n += k
     if re.search(r'\bvalue\.|ValueFlow|dst->|settings', extract.mask(tc)):
         raise extract.ExtractError("K01c: per-value block not fully lowered: %r" % tc.strip()[:300])
+    # the signedness used for the conversion (plain char: the platform's default)
+    fcs = extract.locate_function("lib/valueflow.cpp", r'^static ValueType::Sign getConversionSign\(const ValueType& vt, const Settings& settings\)')
+    kb.add_located("getConversionSign", fcs)
+    tcs, k = located_rules(fcs, _common.VT_RULES + [
+        (r'^static enum Sign getConversionSign\(const ValueType& vt, const Settings& settings\)', 'static enum Sign getConversionSign(enum VType vt_type, enum Sign vt_sign, char defaultSign)', 1, 1),
+        (r'\bvt\.(type|sign)\b', r'vt_\1', 3, 3),
+        (r'\bsettings\.platform\.defaultSign\b', 'defaultSign', 4, 4),
+    ], ID + ".getConversionSign"); n += k
     kb.rules_fired = n
-    callsite = ("enum VVType { VV_INT, VV_FLOAT, VV_OTHER };\nstruct VValue { enum VVType vtype; _Bool impossible; bigint intvalue; double floatValue; };\n"
+    callsite = ("char g_default_sign; _Bool dst_is_char;   /* Platform::defaultSign; the destination is a char type */\n" + extract.strip_comments(tcs) + "\n" +"enum VVType { VV_INT, VV_FLOAT, VV_OTHER };\nstruct VValue { enum VVType vtype; _Bool impossible; bigint intvalue; double floatValue; };\n"
                 "_Bool dst_is_bool;   /* the destination is a (non-pointer) bool: dst->type == BOOL && dst->pointer == 0 */\nvoid truncateValues_block(struct VValue *v, const size_t sz, enum Sign dst_sign)\n{\n%s\n}\n" % extract.strip_comments(tc))
     extract.residue_scan(callsite, ID)
     kb.ctext = _common.BASE + enums + trunc_text + callsite + HARNESS + HARNESS_CALLSITE
